@@ -72,15 +72,61 @@ def _api_options():
     return p
 
 
+FILE_TREES = {
+    # a nested include from a sub-directory, with a file of the same name (other content) next to the main script
+    "nested_include_with_same_named_file_elsewhere": {
+        "main.xbb": 'name main\nversion 1.0\ninclude "lib/chip.xbb"\n\nchip | [1, 2]\nVac | 3\n',
+        "lib/chip.xbb": 'name chip\nversion 1.0\ninclude "bs.xbb"\n\nbs | [1, 0]\nRgate(0.5) | 0\n',
+        "lib/bs.xbb": "name bs\nversion 1.0\n\nBSgate(0.7, 0.8) | [0, 1]\n",
+        "bs.xbb": "name bs\nversion 1.0\n\nBSgate(0.1, 0.2) | [1, 0]\nVac | 0\n",
+        "other/bs.xbb": "name bs\nversion 1.0\n\nSgate(0.3) | 0\nSgate(0.4) | 1\n",
+    },
+    "two_libraries_with_the_same_file_names": {
+        "main.xbb": 'name main\nversion 1.0\ninclude "a/top.xbb"\ninclude "b/top2.xbb"\n\ntop | [0, 1]\ntop2 | [2, 3]\n',
+        "a/top.xbb": 'name top\nversion 1.0\ninclude "util.xbb"\n\nutil | [0, 1]\n',
+        "a/util.xbb": "name util\nversion 1.0\n\nBSgate(0.1) | [0, 1]\n",
+        "b/top2.xbb": 'name top2\nversion 1.0\ninclude "util2.xbb"\n\nutil2 | [1, 0]\n',
+        "b/util2.xbb": "name util2\nversion 1.0\n\nCZgate(0.9) | [0, 1]\n",
+        "util2.xbb": "name util2\nversion 1.0\n\nVac | 0\nVac | 1\n", "a/util2.xbb": "name util2\nversion 1.0\n\nXgate(1) | 0\nZgate(1) | 1\n",
+    },
+}
+
+
+def _load_tree(bb, name):
+    """writes the tree to a fixed place (string hashes of the paths are part of what is observed) and loads main.xbb"""
+    import shutil
+    root = os.path.join("/tmp", "bbverif_c19_files", name)
+    shutil.rmtree(root, ignore_errors=True)
+    try:
+        for rel, text in FILE_TREES[name].items():
+            p = os.path.join(root, rel)
+            os.makedirs(os.path.dirname(p), exist_ok=True)
+            with open(p, "w") as fh:
+                fh.write(text)
+        return bb.load(os.path.join(root, "main.xbb"))
+    finally:
+        shutil.rmtree(root, ignore_errors=True)
+
+
 # programs assembled through the API (their serialisation must not depend on the hash seed either)
 API = {"api_mixed_object_arrays": _api_mixed_array, "api_options_and_expressions": _api_options}
+API.update({("files:" + n): None for n in FILE_TREES})
 SCRIPTS += [("api", n) for n in API]
 
 
 def observe(bb, spec, text):
     """what is compared between iteration orders / hash seeds"""
     if isinstance(SCRIPTS[spec], tuple):
-        p = API[SCRIPTS[spec][1]]()
+        nm = SCRIPTS[spec][1]
+        if nm.startswith("files:"):
+            try:
+                p = _load_tree(bb, nm[6:])
+                return (normalise(_snap.program(p)), bb.dumps(p), None)
+            except engine.Abort:
+                raise
+            except Exception as e:  # noqa
+                return (None, "load raises %s" % type(e).__name__, None)
+        p = API[nm]()
         try:
             return (None, bb.dumps(p), None)
         except engine.Abort:
